@@ -34,7 +34,8 @@ def run(rep, kf, tier, seed):
         rep.merge(r)
     import contracts.removal as crm
     import contracts.body_refs as cbr
-    engine_b.discharge(rep, kf, [crm.propagate_contract(), cbr.resolve_contract()], "C06", tier, seed)
+    import contracts.fixpoints as cfp
+    engine_b.discharge(rep, kf, [crm.propagate_contract(), cbr.resolve_contract()] + cfp.all_contracts(), "C06", tier, seed)
     import contracts.closure as clo
     clo.macro_presence_obligations(rep, "C06")
     import contracts.containment as ct
